@@ -129,8 +129,28 @@ def run(i, props):
     try:
         for p in props:
             t0 = time.time()
-            r = subprocess.run([os.path.join(ROOT, "check"), p], cwd=ROOT, text=True, stdout=subprocess.PIPE, stderr=subprocess.STDOUT)
+            # evidence/, replays/ and work/ of this run go to a scratch directory: the committed evidence
+            # describes the unchanged tree only
+            outdir = f"/tmp/seedrun/{i}"
+            shutil.rmtree(outdir, ignore_errors=True)
+            os.makedirs(outdir)
+            r = subprocess.run([os.path.join(ROOT, "check"), p], cwd=ROOT, text=True, stdout=subprocess.PIPE, stderr=subprocess.STDOUT,
+                               env=dict(os.environ, VERIF_OUT_DIR=outdir))
             vio = [l.strip() for l in r.stdout.split("\n") if l.startswith("VIOLATION")]
+            # keep the first replay next to the seeded change (trimmed)
+            for l in vio[:1]:
+                rp = os.path.join(outdir, l.split("replay=")[1].split()[0])
+                if os.path.exists(rp):
+                    try:
+                        obj = json.load(open(rp))
+                        obj.pop("more", None)
+                        for k in list(obj.keys()):
+                            if isinstance(obj[k], str) and len(obj[k]) > 4000:
+                                obj[k] = obj[k][:4000] + " ...[trimmed]"
+                        json.dump(obj, open(os.path.join(d, f"detected-by-{p}.json"), "w"), indent=1)
+                    except Exception as e:
+                        print("could not copy replay:", e)
+            shutil.rmtree(outdir, ignore_errors=True)
             m["checks"][p] = {"tier": "quick", "against": "/repo working tree with the patch applied", "exit": r.returncode,
                               "detected": bool(vio), "violation_lines": vio[:6], "seconds": round(time.time() - t0)}
             print(f"{i} {p}: exit {r.returncode}", "DETECTED" if vio else "MISSED", vio[:3])
